@@ -20,9 +20,9 @@ def run(ctx, R):
     R.assume('Python evaluation order and tornado/asyncio suspension points (yield/await) as encoded in sa/paths.py')
     declare(R, holds.RULES, RULES, FLOORS)
     for c in hold_classes(ctx):
-        holds.check_class(ctx, R, c, rules=set(RULES))
-        holds.check_in_flight(ctx, R, c)
-    holds.check_emit(ctx, R)
+        R.run(holds.check_class, ctx, R, c, rules=set(RULES))
+        R.run(holds.check_in_flight, ctx, R, c)
+    R.run(holds.check_emit, ctx, R)
     # obligations of rules that belong to C05 were filtered by `rules=`; drop class-level extras
     for k in [k for k in R.obs if k[0] not in RULES]:
         del R.obs[k]
